@@ -115,7 +115,7 @@ func Measure(cases []Case, scratch, childTest string) ([]Result, error) {
 	res := make([]Result, len(cases))
 	start := 0
 	for start < len(cases) {
-		cmd := exec.Command(os.Args[0], "-test.run", childTest, "-test.timeout", "10m")
+		cmd := exec.Command(os.Args[0], "-test.run", childTest, "-test.timeout", "30m")
 		cmd.Env = append(os.Environ(), "VERIF_CHILD_ALLOC="+f.Name(), "VERIF_CHILD_START="+strconv.Itoa(start), "VERIF_STATS=", "VERIF_REPLAY=", "GOGC=100")
 		var out bytes.Buffer
 		cmd.Stdout, cmd.Stderr = &out, &out
@@ -127,7 +127,7 @@ func Measure(cases []Case, scratch, childTest string) ([]Result, error) {
 		timedOut := false
 		select {
 		case <-done:
-		case <-time.After(5 * time.Minute):
+		case <-time.After(20 * time.Minute):
 			cmd.Process.Kill()
 			<-done
 			timedOut = true
